@@ -4,7 +4,26 @@ From MV Require Import Geo.Wind2Defs Geo.Wind2 Geo.RegularDefs.
 Import ListNotations.
 Local Open Scope Z_scope.
 
-(* ---------- pure arithmetic: two parametrised points coincide ---------- *)
+(* ---------- pure arithmetic helpers (kept context-free so that nia stays fast) ---------- *)
+Lemma sumsq_pos : forall x y, x <> 0 \/ y <> 0 -> 0 < x * x + y * y.
+Proof. intros. nia. Qed.
+Lemma mul_nonneg : forall a b, 0 <= a -> 0 <= b -> 0 <= a * b.
+Proof. intros. nia. Qed.
+Lemma mul_nonpos_r : forall a b, 0 <= a -> b <= 0 -> a * b <= 0.
+Proof. intros. nia. Qed.
+Lemma mul_zero_pos : forall a b, a * b = 0 -> 0 < a -> b = 0.
+Proof. intros. nia. Qed.
+Lemma mul_cancel_pos : forall s k L, 0 < L -> s * L = k * L -> s = k.
+Proof. intros. nia. Qed.
+Lemma mul_le_mono : forall s k L, 0 <= s <= k -> 0 <= L -> 0 <= s * L <= k * L.
+Proof. intros. nia. Qed.
+Lemma convex_range : forall k a s d lo hi, 0 < k -> 0 <= s <= k -> lo <= a -> lo <= a + d -> a <= hi -> a + d <= hi ->
+  k * lo <= k * a + s * d <= k * hi.
+Proof. intros. nia. Qed.
+Lemma scaled_lt_false : forall k x lo1 hi1 lo2 hi2, 0 < k -> k * lo1 <= x <= k * hi1 -> k * lo2 <= x <= k * hi2 -> ~ hi1 < lo2.
+Proof. intros. nia. Qed.
+
+(* ---------- two parametrised points coincide ---------- *)
 Section Param.
   Variables ax ay bx by_ cx cy dx dy k s t : Z.
   Hypothesis Hk : 0 < k.
@@ -48,9 +67,12 @@ Section Param.
     intros x y p q H1 H2 Hp Hq.
     assert (A : (k * x) * (k * y) <= 0).
     { rewrite H1, H2. replace (- p * D * (q * D)) with (- ((p * q) * (D * D))) by ring.
-      assert (0 <= p * q) by nia. assert (0 <= D * D) by nia. nia. }
+      assert (0 <= p * q) by (apply mul_nonneg; assumption). assert (0 <= D * D) by apply Z.square_nonneg.
+      assert (0 <= (p * q) * (D * D)) by (apply mul_nonneg; assumption). lia. }
     replace (k * x * (k * y)) with ((k * k) * (x * y)) in A by ring.
-    assert (0 < k * k) by nia. nia.
+    assert (0 < k * k) by (apply Z.mul_pos_pos; assumption).
+    destruct (Z_lt_le_dec 0 (x * y)) as [P|P]; [|exact P]. exfalso.
+    assert (0 < k * k * (x * y)) by (apply Z.mul_pos_pos; assumption). lia.
   Qed.
 
   Lemma cross_case : D <> 0 -> ~ ((s = 0 \/ s = k) /\ (t = 0 \/ t = k)) ->
@@ -86,36 +108,38 @@ Section Param.
     o1 = 0 /\ Z.max 0 (Z.min al be) < Z.min L (Z.max al be).
   Proof.
     intros HD Hu Hv Hne. pose proof ko1 as K1. pose proof sL as S.
-    assert (HL : 0 < L) by (unfold L; nia).
+    assert (HL : 0 < L) by (apply sumsq_pos; exact Hu).
     split.
-    { rewrite HD in K1. nia. }
+    { assert (Z1 : k * o1 = 0) by (rewrite K1, HD; ring).
+      apply Z.mul_eq_0 in Z1. lia. }
     assert (Hd : be - al = ux * vx + uy * vy) by (unfold be, al, vx, vy, wx, wy; ring).
     assert (Hne2 : be <> al).
     { intro E. assert (Z0 : ux * vx + uy * vy = 0) by lia.
       assert (I : (ux * vx + uy * vy) * (ux * vx + uy * vy) + D * D = L * (vx * vx + vy * vy)) by (unfold D, L; ring).
-      rewrite Z0, HD in I. assert (0 < vx * vx + vy * vy) by nia. nia. }
-    (* x = s*L lies in [0, k*L] and is the k-scaled convex combination of al, be *)
-    assert (X0 : 0 <= s * L) by nia.
-    assert (X1 : s * L <= k * L) by nia.
+      rewrite Z0, HD in I. pose proof (sumsq_pos vx vy Hv) as Pv.
+      assert (0 < L * (vx * vx + vy * vy)) by (apply Z.mul_pos_pos; assumption). lia. }
+    pose proof (mul_le_mono s k L Hs (Z.lt_le_incl _ _ HL)) as [X0 X1].
     assert (M1 : 0 < Z.max al be).
     { destruct (Z_lt_le_dec 0 (Z.max al be)) as [|Hle]; [assumption|exfalso].
-      assert (al <= 0 /\ be <= 0) by lia.
-      assert ((k - t) * al <= 0) by nia. assert (t * be <= 0) by nia.
-      assert (s * L = 0) by lia. assert (s = 0) by nia.
-      assert ((k - t) * al = 0) by lia. assert (t * be = 0) by lia.
+      assert (Hab : al <= 0 /\ be <= 0) by lia.
+      assert (P1 : (k - t) * al <= 0) by (apply mul_nonpos_r; lia).
+      assert (P2 : t * be <= 0) by (apply mul_nonpos_r; lia).
+      assert (SZ : s * L = 0) by lia. assert (s0 : s = 0) by (apply Z.mul_eq_0 in SZ; lia).
+      assert (Q1 : (k - t) * al = 0) by lia. assert (Q2 : t * be = 0) by lia.
       apply Hne. split; [left; assumption|].
       destruct (Z.eq_dec t 0); [left; assumption|]. destruct (Z.eq_dec t k); [right; assumption|exfalso].
-      assert (al = 0) by nia. assert (be = 0) by nia. lia. }
+      apply Z.mul_eq_0 in Q1. apply Z.mul_eq_0 in Q2. lia. }
     assert (M2 : Z.min al be < L).
     { destruct (Z_lt_le_dec (Z.min al be) L) as [|Hge]; [assumption|exfalso].
-      assert (L <= al /\ L <= be) by lia.
-      assert (0 <= (k - t) * (al - L)) by nia. assert (0 <= t * (be - L)) by nia.
+      assert (Hab : L <= al /\ L <= be) by lia.
+      assert (P1 : 0 <= (k - t) * (al - L)) by (apply mul_nonneg; lia).
+      assert (P2 : 0 <= t * (be - L)) by (apply mul_nonneg; lia).
       assert (E : s * L - k * L = (k - t) * (al - L) + t * (be - L)) by (rewrite S; ring).
-      assert (s * L = k * L) by lia. assert (s = k) by nia.
-      assert ((k - t) * (al - L) = 0) by lia. assert (t * (be - L) = 0) by lia.
+      assert (SZ : s * L = k * L) by lia. assert (sk : s = k) by (apply (mul_cancel_pos s k L); assumption).
+      assert (Q1 : (k - t) * (al - L) = 0) by lia. assert (Q2 : t * (be - L) = 0) by lia.
       apply Hne. split; [right; assumption|].
       destruct (Z.eq_dec t 0); [left; assumption|]. destruct (Z.eq_dec t k); [right; assumption|exfalso].
-      assert (al - L = 0) by nia. assert (be - L = 0) by nia. lia. }
+      apply Z.mul_eq_0 in Q1. apply Z.mul_eq_0 in Q2. lia. }
     lia.
   Qed.
 
@@ -124,10 +148,304 @@ Section Param.
     ~ (Z.max ax bx < Z.min cx dx) /\ ~ (Z.max cx dx < Z.min ax bx) /\
     ~ (Z.max ay by_ < Z.min cy dy) /\ ~ (Z.max cy dy < Z.min ay by_).
   Proof.
-    assert (A1 : k * Z.min ax bx <= k * ax + s * (bx - ax) <= k * Z.max ax bx) by nia.
-    assert (A2 : k * Z.min cx dx <= k * cx + t * (dx - cx) <= k * Z.max cx dx) by nia.
-    assert (A3 : k * Z.min ay by_ <= k * ay + s * (by_ - ay) <= k * Z.max ay by_) by nia.
-    assert (A4 : k * Z.min cy dy <= k * cy + t * (dy - cy) <= k * Z.max cy dy) by nia.
-    repeat split; intro H; nia.
+    assert (A1 : k * Z.min ax bx <= k * ax + s * (bx - ax) <= k * Z.max ax bx) by (apply convex_range; lia).
+    assert (A2 : k * Z.min cx dx <= k * cx + t * (dx - cx) <= k * Z.max cx dx) by (apply convex_range; lia).
+    assert (A3 : k * Z.min ay by_ <= k * ay + s * (by_ - ay) <= k * Z.max ay by_) by (apply convex_range; lia).
+    assert (A4 : k * Z.min cy dy <= k * cy + t * (dy - cy) <= k * Z.max cy dy) by (apply convex_range; lia).
+    rewrite Ex in A1. rewrite Ey in A3.
+    repeat split.
+    - apply (scaled_lt_false k _ _ _ _ _ Hk A1 A2).
+    - apply (scaled_lt_false k _ _ _ _ _ Hk A2 A1).
+    - apply (scaled_lt_false k _ _ _ _ _ Hk A3 A4).
+    - apply (scaled_lt_false k _ _ _ _ _ Hk A4 A3).
   Qed.
 End Param.
+
+(* ---------- the exact segment test is sound ---------- *)
+Lemma pt_eqb_eq : forall a b : pt, pt_eqb a b = true <-> a = b.
+Proof.
+  intros [ax ay] [bx by_]. unfold pt_eqb. cbn [fst snd]. rewrite andb_true_iff, !Z.eqb_eq.
+  split; [intros [-> ->]; reflexivity | intros H; inversion H; split; reflexivity].
+Qed.
+
+Lemma pt_neq_coord : forall ax ay bx by_ : Z, (ax, ay) <> (bx, by_) -> bx - ax <> 0 \/ by_ - ay <> 0.
+Proof.
+  intros. destruct (Z.eq_dec (bx - ax) 0) as [E1|]; [|left; assumption].
+  destruct (Z.eq_dec (by_ - ay) 0) as [E2|]; [|right; assumption].
+  exfalso. apply H. f_equal; lia.
+Qed.
+
+Lemma seg_conflict_sound : forall e f, fst e <> snd e -> fst f <> snd f ->
+  seg_conflict e f = false -> ~ seg_conflict_decl e f.
+Proof.
+  intros [[ax ay] [bx by_]] [[cx cy] [dx dy]] Hab Hcd Hc. cbn [fst snd] in Hab, Hcd.
+  unfold seg_conflict_decl. cbn [fst snd].
+  intros (k & s & t & Hk & Hs & Ht & Ex & Ey & Hne).
+  apply orb_false_iff in Hc. destruct Hc as [Hc1 Hc2].
+  destruct (Z.eq_dec ((bx - ax) * (dy - cy) - (by_ - ay) * (dx - cx)) 0) as [HD|HD].
+  - pose proof (overlap_case ax ay bx by_ cx cy dx dy k s t Hk Hs Ht Ex Ey HD
+                  (pt_neq_coord _ _ _ _ Hab) (pt_neq_coord _ _ _ _ Hcd) Hne) as [O1 O2].
+    unfold seg_overlap, orient, crs, dot, sub in Hc2. cbn [fst snd] in Hc2.
+    rewrite HD, O1 in Hc2. cbn [Z.eqb andb] in Hc2. apply Z.ltb_ge in Hc2. lia.
+  - pose proof (cross_case ax ay bx by_ cx cy dx dy k s t Hk Hs Ht Ex Ey HD Hne) as (C1 & C2 & C3).
+    unfold seg_cross, orient, crs, sub in Hc1. cbn [fst snd] in Hc1.
+    apply Z.eqb_neq in HD. rewrite HD in Hc1. cbn [negb andb] in Hc1.
+    apply Z.leb_le in C1. apply Z.leb_le in C2. rewrite C1, C2 in Hc1. cbn [andb] in Hc1.
+    apply negb_false_iff in Hc1. apply andb_true_iff in Hc1. destruct Hc1 as [G1 G2].
+    apply C3. split.
+    + apply orb_true_iff in G1. destruct G1 as [G|G]; apply Z.eqb_eq in G; [left|right]; exact G.
+    + apply orb_true_iff in G2. destruct G2 as [G|G]; apply Z.eqb_eq in G; [left|right]; exact G.
+Qed.
+
+Lemma seg_conflict_decl_sym : forall e f, seg_conflict_decl e f -> seg_conflict_decl f e.
+Proof.
+  intros [a b] [c d]. unfold seg_conflict_decl.
+  intros (k & s & t & Hk & Hs & Ht & Ex & Ey & Hne).
+  exists k, t, s. repeat split; lia.
+Qed.
+
+Lemma ranges_no_conflict : forall e f, bbox_disjoint e f = true -> ~ seg_conflict_decl e f.
+Proof.
+  intros [[ax ay] [bx by_]] [[cx cy] [dx dy]] Hb. unfold seg_conflict_decl. cbn [fst snd].
+  intros (k & s & t & Hk & Hs & Ht & Ex & Ey & Hne).
+  pose proof (ranges_meet ax ay bx by_ cx cy dx dy k s t Hk Hs Ht Ex Ey) as (R1 & R2 & R3 & R4).
+  unfold bbox_disjoint, sxmin, sxmax, symin, symax in Hb. cbn [fst snd] in Hb.
+  rewrite !orb_true_iff in Hb. rewrite !Z.ltb_lt in Hb. tauto.
+Qed.
+
+Lemma conflict_b_sound : forall e f, nondeg e = true -> nondeg f = true ->
+  conflict_b e f = false -> ~ seg_conflict_decl e f.
+Proof.
+  intros e f He Hf Hc. unfold conflict_b in Hc.
+  destruct (bbox_disjoint e f) eqn:Eb.
+  - apply ranges_no_conflict, Eb.
+  - apply seg_conflict_sound; try assumption.
+    + unfold nondeg in He. apply negb_true_iff in He. intro E. apply pt_eqb_eq in E. congruence.
+    + unfold nondeg in Hf. apply negb_true_iff in Hf. intro E. apply pt_eqb_eq in E. congruence.
+Qed.
+
+Lemma xsep_no_conflict : forall e f, sxmax e < sxmin f -> ~ seg_conflict_decl e f.
+Proof.
+  intros e f H. apply ranges_no_conflict. unfold bbox_disjoint.
+  apply Z.ltb_lt in H. rewrite H. reflexivity.
+Qed.
+
+(* ---------- the x-sorted sweep visits every pair that can conflict ---------- *)
+Definition NoConf (e f : seg) : Prop := ~ seg_conflict_decl e f.
+
+Lemma NoConf_sym : forall e f, NoConf e f -> NoConf f e.
+Proof. unfold NoConf. intros e f H C. apply H, seg_conflict_decl_sym, C. Qed.
+
+Definition le_xmin (e f : seg) : Prop := is_true (SegOrder.leb e f).
+
+Lemma sweep_inner_sound : forall e rest, nondeg e = true -> forallb nondeg rest = true ->
+  StronglySorted le_xmin rest -> sweep_inner e rest = true -> Forall (NoConf e) rest.
+Proof.
+  intros e rest He. induction rest as [|f r IH]; intros Hn Hs Hi; [constructor|].
+  cbn [forallb] in Hn. apply andb_true_iff in Hn. destruct Hn as [Hf Hr].
+  apply StronglySorted_inv in Hs. destruct Hs as [Hs1 Hs2].
+  cbn [sweep_inner] in Hi.
+  destruct (sxmax e <? sxmin f) eqn:Eb.
+  - apply Z.ltb_lt in Eb. constructor.
+    + apply xsep_no_conflict, Eb.
+    + rewrite Forall_forall in Hs2 |- *. intros g Hg. apply xsep_no_conflict.
+      specialize (Hs2 g Hg). unfold le_xmin, SegOrder.leb, is_true in Hs2. apply Z.leb_le in Hs2. lia.
+  - apply andb_true_iff in Hi. destruct Hi as [Hi1 Hi2]. constructor.
+    + apply conflict_b_sound; try assumption. apply negb_true_iff, Hi1.
+    + apply IH; assumption.
+Qed.
+
+Lemma sweep_outer_sound : forall l, forallb nondeg l = true -> StronglySorted le_xmin l ->
+  sweep_outer l = true -> ForallOrdPairs NoConf l.
+Proof.
+  induction l as [|e r IH]; intros Hn Hs Ho; [constructor|].
+  cbn [forallb] in Hn. apply andb_true_iff in Hn. destruct Hn as [He Hr].
+  apply StronglySorted_inv in Hs. destruct Hs as [Hs1 Hs2].
+  cbn [sweep_outer] in Ho. apply andb_true_iff in Ho. destruct Ho as [Ho1 Ho2].
+  constructor.
+  - apply sweep_inner_sound; assumption.
+  - apply IH; assumption.
+Qed.
+
+Lemma FOP_perm : forall (R : seg -> seg -> Prop), (forall x y, R x y -> R y x) ->
+  forall l l', Permutation l l' -> ForallOrdPairs R l -> ForallOrdPairs R l'.
+Proof.
+  intros R Rsym l l' P. induction P; intros H.
+  - exact H.
+  - inversion H; subst. constructor.
+    + eapply Permutation_Forall; eassumption.
+    + apply IHP; assumption.
+  - inversion H; subst. inversion H2; subst. inversion H3; subst.
+    constructor; [constructor; [apply Rsym; assumption | assumption] | constructor; assumption].
+  - apply IHP2, IHP1, H.
+Qed.
+
+Lemma le_xmin_trans : Relations_1.Transitive le_xmin.
+Proof.
+  intros x y z. unfold le_xmin, SegOrder.leb, is_true. rewrite !Z.leb_le. lia.
+Qed.
+
+Lemma no_conflicts_sound : forall es, no_conflicts es = true ->
+  (forall e, In e es -> fst e <> snd e) /\ ForallOrdPairs NoConf es.
+Proof.
+  intros es H. unfold no_conflicts in H. apply andb_true_iff in H. destruct H as [Hn Ho].
+  split.
+  - intros e He E. rewrite forallb_forall in Hn. specialize (Hn e He).
+    unfold nondeg in Hn. apply negb_true_iff in Hn. apply pt_eqb_eq in E. congruence.
+  - apply (FOP_perm NoConf NoConf_sym (SegSort.sort es) es).
+    + apply Permutation_sym, SegSort.Permuted_sort.
+    + apply sweep_outer_sound.
+      * rewrite forallb_forall in Hn |- *. intros e He. apply Hn.
+        eapply Permutation_in; [apply Permutation_sym, SegSort.Permuted_sort | exact He].
+      * apply SegSort.StronglySorted_sort. intros x y z. apply le_xmin_trans.
+      * exact Ho.
+Qed.
+
+(* ---------- simple contours ---------- *)
+Lemma mem_pt_false : forall p l, mem_pt p l = false -> ~ In p l.
+Proof.
+  induction l as [|q r IH]; intros H; [intros []|].
+  cbn [mem_pt] in H. apply orb_false_iff in H. destruct H as [H1 H2].
+  intros [E|I]; [|apply IH; assumption].
+  subst q. assert (pt_eqb p p = true) by (apply pt_eqb_eq; reflexivity). congruence.
+Qed.
+
+Lemma nodupb_sound : forall l, nodupb l = true -> NoDup l.
+Proof.
+  induction l as [|p r IH]; intros H; [constructor|].
+  cbn [nodupb] in H. apply andb_true_iff in H. destruct H as [H1 H2].
+  constructor; [apply mem_pt_false, negb_true_iff, H1 | apply IH, H2].
+Qed.
+
+Lemma wind01_sound : forall cs pts, wind01 cs pts = true -> forall p, In p pts -> wind2 cs p = 0 \/ wind2 cs p = 1.
+Proof.
+  intros cs pts H p Hp. unfold wind01 in H. rewrite forallb_forall in H. specialize (H p Hp).
+  cbn zeta in H. apply orb_true_iff in H. rewrite !Z.eqb_eq in H. exact H.
+Qed.
+
+Theorem regular_check_sound : forall cs pts, regular_check cs pts = true ->
+  (forall c, In c cs -> NoDup c /\ (3 <= length c)%nat) /\
+  (forall e, In e (all_edges cs) -> fst e <> snd e) /\
+  ForallOrdPairs (fun e f => ~ seg_conflict_decl e f) (all_edges cs) /\
+  (forall p, In p pts -> wind2 cs p = 0 \/ wind2 cs p = 1).
+Proof.
+  intros cs pts H. unfold regular_check in H.
+  apply andb_true_iff in H. destruct H as [H H3]. apply andb_true_iff in H. destruct H as [H1 H2].
+  split; [|split; [|split]].
+  - intros c Hc. rewrite forallb_forall in H1. specialize (H1 c Hc). unfold contour_ok in H1.
+    apply andb_true_iff in H1. destruct H1 as [L N]. split; [apply nodupb_sound, N | lia].
+  - apply no_conflicts_sound, H2.
+  - apply (proj2 (no_conflicts_sound _ H2)).
+  - apply wind01_sound, H3.
+Qed.
+
+(* ---------- distance from a segment ---------- *)
+Lemma far_case1 : forall k s ux uy wx wy E2, 0 < k -> 0 <= s <= k ->
+  ux * wx + uy * wy <= 0 -> E2 < wx * wx + wy * wy ->
+  k * k * E2 < (k * wx - s * ux) * (k * wx - s * ux) + (k * wy - s * uy) * (k * wy - s * uy).
+Proof.
+  intros k s ux uy wx wy E2 Hk Hs Hal HE.
+  replace ((k * wx - s * ux) * (k * wx - s * ux) + (k * wy - s * uy) * (k * wy - s * uy))
+    with (k * k * (wx * wx + wy * wy) + (2 * k * s) * (- (ux * wx + uy * wy)) + (s * s) * (ux * ux + uy * uy)) by ring.
+  assert (0 <= (2 * k * s) * (- (ux * wx + uy * wy))) by (apply mul_nonneg; [apply mul_nonneg; lia | lia]).
+  assert (0 <= (s * s) * (ux * ux + uy * uy)).
+  { apply mul_nonneg; [apply Z.square_nonneg|]. pose proof (Z.square_nonneg ux). pose proof (Z.square_nonneg uy). lia. }
+  assert (0 < k * k) by (apply Z.mul_pos_pos; assumption).
+  assert (k * k * E2 < k * k * (wx * wx + wy * wy)) by (apply Z.mul_lt_mono_pos_l; assumption).
+  lia.
+Qed.
+
+Lemma far_case3 : forall k s ux uy wx wy E2, 0 < k -> 0 < ux * ux + uy * uy ->
+  E2 * (ux * ux + uy * uy) < (ux * wy - uy * wx) * (ux * wy - uy * wx) ->
+  k * k * E2 < (k * wx - s * ux) * (k * wx - s * ux) + (k * wy - s * uy) * (k * wy - s * uy).
+Proof.
+  intros k s ux uy wx wy E2 Hk HL HE.
+  set (T := (k * wx - s * ux) * (k * wx - s * ux) + (k * wy - s * uy) * (k * wy - s * uy)).
+  set (L := ux * ux + uy * uy) in *. set (C := ux * wy - uy * wx) in *.
+  assert (I : L * T = k * k * (C * C) + (k * (ux * wx + uy * wy) - s * L) * (k * (ux * wx + uy * wy) - s * L))
+    by (unfold T, L, C; ring).
+  assert (0 < k * k) by (apply Z.mul_pos_pos; assumption).
+  assert (k * k * (E2 * L) < k * k * (C * C)) by (apply Z.mul_lt_mono_pos_l; assumption).
+  pose proof (Z.square_nonneg (k * (ux * wx + uy * wy) - s * L)).
+  assert (G : (k * k * E2) * L < T * L) by lia.
+  apply Z.mul_lt_mono_pos_r in G; assumption.
+Qed.
+
+Lemma dist2_gt_sound : forall E2 p e, dist2_gt E2 p e = true -> seg_far_decl E2 p e.
+Proof.
+  intros E2 [px py] [[ax ay] [bx by_]] H. unfold seg_far_decl. cbn [fst snd]. intros k s Hk Hs.
+  unfold dist2_gt, dot, crs, sub in H. cbn [fst snd] in H.
+  replace (k * px - (k * ax + s * (bx - ax))) with (k * (px - ax) - s * (bx - ax)) by ring.
+  replace (k * py - (k * ay + s * (by_ - ay))) with (k * (py - ay) - s * (by_ - ay)) by ring.
+  destruct ((bx - ax) * (px - ax) + (by_ - ay) * (py - ay) <=? 0) eqn:E1.
+  - apply Z.leb_le in E1. apply Z.ltb_lt in H. apply far_case1; assumption.
+  - apply Z.leb_gt in E1.
+    destruct ((bx - ax) * (bx - ax) + (by_ - ay) * (by_ - ay) <=? (bx - ax) * (px - ax) + (by_ - ay) * (py - ay)) eqn:E2'.
+    + apply Z.leb_le in E2'. apply Z.ltb_lt in H.
+      replace (k * (px - ax) - s * (bx - ax)) with (k * (px - bx) - (k - s) * (- (bx - ax))) by ring.
+      replace (k * (py - ay) - s * (by_ - ay)) with (k * (py - by_) - (k - s) * (- (by_ - ay))) by ring.
+      apply far_case1; try assumption; lia.
+    + apply Z.leb_gt in E2'. apply Z.ltb_lt in H. apply far_case3; try assumption. lia.
+Qed.
+
+Lemma sq_gt : forall x y, 0 <= y -> (y < x \/ x < - y) -> y * y < x * x.
+Proof. intros. nia. Qed.
+
+Lemma outside_box_sound : forall E p e, 0 <= E -> outside_box E p e = true -> seg_far_decl (E * E) p e.
+Proof.
+  intros E [px py] [[ax ay] [bx by_]] HE H. unfold seg_far_decl. cbn [fst snd]. intros k s Hk Hs.
+  unfold outside_box, sxmin, sxmax, symin, symax in H. cbn [fst snd] in H.
+  assert (A1 : k * Z.min ax bx <= k * ax + s * (bx - ax) <= k * Z.max ax bx) by (apply convex_range; lia).
+  assert (A3 : k * Z.min ay by_ <= k * ay + s * (by_ - ay) <= k * Z.max ay by_) by (apply convex_range; lia).
+  set (X := k * ax + s * (bx - ax)) in *. set (Y := k * ay + s * (by_ - ay)) in *.
+  replace (k * k * (E * E)) with ((k * E) * (k * E)) by ring.
+  assert (KE : 0 <= k * E) by (apply mul_nonneg; lia).
+  pose proof (Z.square_nonneg (k * px - X)). pose proof (Z.square_nonneg (k * py - Y)).
+  rewrite !orb_true_iff in H. rewrite !Z.ltb_lt in H.
+  destruct H as [[[H|H]|H]|H].
+  - assert (k * (px + E) < k * Z.min ax bx) by (apply Z.mul_lt_mono_pos_l; assumption).
+    assert ((k * E) * (k * E) < (k * px - X) * (k * px - X)) by (apply sq_gt; lia). lia.
+  - assert (k * (Z.max ax bx + E) < k * px) by (apply Z.mul_lt_mono_pos_l; assumption).
+    assert ((k * E) * (k * E) < (k * px - X) * (k * px - X)) by (apply sq_gt; lia). lia.
+  - assert (k * (py + E) < k * Z.min ay by_) by (apply Z.mul_lt_mono_pos_l; assumption).
+    assert ((k * E) * (k * E) < (k * py - Y) * (k * py - Y)) by (apply sq_gt; lia). lia.
+  - assert (k * (Z.max ay by_ + E) < k * py) by (apply Z.mul_lt_mono_pos_l; assumption).
+    assert ((k * E) * (k * E) < (k * py - Y) * (k * py - Y)) by (apply sq_gt; lia). lia.
+Qed.
+
+Lemma far1_sound : forall E p e, 0 <= E -> far1 E p e = true -> seg_far_decl (E * E) p e.
+Proof.
+  intros E p e HE H. unfold far1 in H. destruct (outside_box E p e) eqn:Eo.
+  - apply outside_box_sound; assumption.
+  - apply dist2_gt_sound, H.
+Qed.
+
+Lemma far_all_sound : forall E p es, 0 <= E -> far_all E p es = true -> forall e, In e es -> seg_far_decl (E * E) p e.
+Proof.
+  intros E p es HE H e He. unfold far_all in H. rewrite forallb_forall in H. apply far1_sound; auto.
+Qed.
+
+(* ---------- the set formula ---------- *)
+Theorem formula_check_sound : forall E e result pts, 0 <= E -> formula_check E e result pts = true ->
+  forall p, In p pts ->
+    far_all E p (fedges e) = true ->
+    (forall g, In g (fedges e) -> seg_far_decl (E * E) p g) /\
+    wind2 result p = b2z (feval e p).
+Proof.
+  intros E e result pts HE H p Hp Hfar. split.
+  - apply far_all_sound; assumption.
+  - unfold formula_check in H. rewrite forallb_forall in H. specialize (H p Hp).
+    unfold formula_ok in H. rewrite Hfar in H. apply Z.eqb_eq, H.
+Qed.
+
+(* pixel regime: with E = 0 and pixel centres as samples every sample is far
+   from every lattice edge whose endpoints have even (doubled) coordinates *)
+Lemma wind_sum_01 : forall cs pts, wind01 cs pts = true ->
+  wind_sum cs pts = Z.of_nat (length (filter (fun p => wind2 cs p =? 1) pts)).
+Proof.
+  intros cs pts. unfold wind_sum. induction pts as [|p r IH]; intros H; [reflexivity|].
+  cbn [wind01 forallb] in H. apply andb_true_iff in H. destruct H as [H1 H2].
+  cbn [map filter]. unfold zsum in *. cbn [fold_right]. rewrite (IH H2).
+  cbn zeta in H1. apply orb_true_iff in H1. rewrite !Z.eqb_eq in H1.
+  destruct H1 as [E|E]; rewrite E; cbn [Z.eqb Pos.eqb length]; lia.
+Qed.
